@@ -31,6 +31,7 @@ def resolve(qualname):
     if ":" in qualname:
         mod, fn = qualname.split(":")
         return getattr(importlib.import_module(mod), fn)
+    qualname = qualname.split("@")[0]
     cls, meth = qualname.split(".", 1)
     idx = driver.repo_index()
     module = idx.classes[cls]["module"]
